@@ -83,7 +83,7 @@ def run(pid, tier):
         with open(path, "w") as f:
             f.write("\n".join(classes_txt) + "\n")
         nrand = 3000 if tier == "quick" else 300000
-        tiers = ["pinned", "debug"] if tier == "quick" else ["pinned", "debug", "san"]
+        tiers = (["pinned", "debug"] if tier == "quick" else ["pinned", "debug", "san"]) + vlib.isa_tier(LIB)
         traces, cmds = [], []
         for t in tiers:
             drv = vlib.build_driver("drv_float", t, LIB, **BUILD)
@@ -92,7 +92,14 @@ def run(pid, tier):
                 traces.append(out)
                 cmds.append([drv, path, str(s), str(vlib.NCPU), str(nrand), out])
         vlib.run_many(cmds, env={"ASAN_OPTIONS": "detect_leaks=0:handle_segv=0:allow_user_segv_handler=1"})
+        if tier == "thorough":
+            # "all arrays": one array whose packed mantissa block exceeds 2^32 bits in a single call (~4 GB, ~20 s)
+            gout = os.path.join(work, "f64-giant.ndjson")
+            vlib.run_many([[vlib.build_driver("drv_float", "pinned", LIB, **BUILD), "giant", "0", gout]], timeout=1500)
         events, rejects, _ = vlib.validate(traces, "FloatTrace.tla", "FloatTrace.cfg", xmx="3g")
+        if tier == "thorough":
+            e2, r2, _ = vlib.validate([gout], "FloatTrace.tla", "FloatTrace.cfg", xmx="3g")
+            events, rejects = events + e2, rejects + r2
 
         def mut(ev):
             if ev.get("prec") != 0 or not ev["ys"]:
